@@ -52,6 +52,11 @@ claim('C03', 'exploration', 'exhaustive enumeration of (adversarial catalogue it
       'Trusted: synctest; P2P store doubles (contiguous append-only) instead of the go-header syncer; one adversarial item per run; junk arriving only over P2P that halts the node is recorded as an observation (the no-halt clause names the DA layer).',
       'DESIGN.md section 5 C03', 'world')
 
+claim('C09', 'exploration', 'exhaustive enumeration of DA layouts x fetch-outcome sequences x start heights against the real RetrieveLoop under virtual time; bounded-exhaustive blob mutations',
+      'The real RetrieveLoop runs in a synctest bubble against the DA double; part 1 enumerates every layout of 3-4 DA heights over {empty, genuine, junk, genuine+junk, 101 blobs across the 100-id chunk boundary}, start heights {0,1,3} and every sequence of fetch outcomes (ok, listing error, not found, from the future, error fetching blobs) within the deviation budget; the listing-call log must be gap-free, start at the configured height and pass a height only after an ok/confirmed-empty answer, every genuine blob of a successfully examined height must be handed to sync exactly as itself, nothing else may be handed over, the loop must not stall; part 2 scans every prefix and single-byte substitution of a genuine header and data blob and a list of malformed shapes next to genuine blobs (no panic, genuine still delivered, nothing else delivered).',
+      'Trusted: synctest; DA double; the harness drains the sync input channels instead of SyncLoop; in-call retries and early return on a future height are accepted behaviours.',
+      'DESIGN.md section 5 C09', 'explore')
+
 NOT_YET = "check not built yet in this session (work in progress, see DESIGN.md section 10 for the order of work)"
 
 checks = []
